@@ -36,6 +36,7 @@ def check(ctx: Ctx, rep: Report):
     rep.rule("C06.R4", "an unlocked transport close in task context follows a lock-held region without an intervening suspension", 4)
     rep.rule("C06.R5", "send_request awaits and returns the future created by this activation", 2)
     rep.rule("C06.R6", "at most one live timeout per protocol object: a timer is armed only after the previous handle was cancelled, fired or is absent; receive paths that complete a request have cancelled it", 6)
+    rep.rule("C06.R8", "datagram transport with keep-alive off: the socket is closed before the lock is handed to another task", 1)
     rep.rule("C06.R7", "one lock per protocol object and event loop: _ensure_lock creates a lock only when none exists or the running loop changed", 2)
     r7(ctx, rep)
     ms = ctx.memo("maysuspend", lambda: MaySuspend(ctx.prog, ctx.res))
@@ -47,6 +48,7 @@ def check(ctx: Ctx, rep: Report):
             lock_typestate(ctx, rep, ci, cl, ms)
         r5(ctx, rep, ci)
         r6(ctx, rep, ci)
+        r8(ctx, rep, ci)
     r4_execute(ctx, rep, ms)
 
 
@@ -292,6 +294,62 @@ def r5(ctx, rep, ci):
               bad="%s.send_request %s: a caller could receive another request's answer" % (ci.name, why))
 
 
+# ----------------------------------------------------------------------- R8
+def r8(ctx, rep, ci):
+    """Datagram transport, keep-alive off: a socket on which a request went out is never left open when the lock is
+    given up.  Answers carry no request identity beyond their framing, so a late answer to a timed-out request arriving
+    on a socket that the next lock holder re-uses is taken for that caller's answer."""
+    prog = ctx.prog
+    if not any(isinstance(b, str) and b == "asyncio.DatagramProtocol" for b in prog.mro(ci)):
+        return
+    fn = method(ctx, ci, "send_request")
+    n = 0
+    bad = None
+    for p in protocol_paths(ctx, fn):
+        open_ = False
+        ka_true = False        # keep_alive seen true since the last suspension
+        for i, ev in enumerate(p.events):
+            t0 = tags(ev)
+            if ev.kind == "call" and (t0 & {"connect", "inner_send", "create_endpoint", "recursive"}):
+                open_ = True
+            elif ev.kind == "call" and "close_transport" in t0:
+                open_ = False
+            elif ev.kind == "test" and chain(ev.node) == ("self", "keep_alive"):
+                ka_true = ev.data is True
+            elif ev.kind in ("await", "raise") and isinstance(ev.node, ast.Await):
+                ka_true = False
+            if not (ev.kind == "call" and "release" in t0):
+                continue
+            n += 1
+            if not open_ or ka_true:
+                continue          # already closed (close before release) / keep-alive is on / nothing opened yet
+            ok = False
+            for e2 in p.events[i + 1:]:
+                t = tags(e2)
+                if e2.kind == "call" and "close_transport" in t:
+                    ok = True
+                    break
+                if e2.kind == "test" and chain(e2.node) == ("self", "keep_alive") and e2.data is True:
+                    ok = True
+                    break
+                if e2.kind in ("await", "raise") and isinstance(e2.node, ast.Await):
+                    break         # another task may run now
+                if e2.kind == "call" and "acquire" in t:
+                    break
+            else:
+                # the function ends without a suspension: execute() closes right after (C10.R3), nothing can interleave
+                ok = any(e2.kind == "call" and "close_transport" in tags(e2) for e2 in p.events[i + 1:]) or \
+                    any(e2.kind == "test" and chain(e2.node) == ("self", "keep_alive") and e2.data is True for e2 in p.events[i + 1:])
+            if not ok and bad is None:
+                bad = (p, ev)
+    if n == 0:
+        raise AnalysisError("%s.send_request never releases the lock" % ci.name)
+    rep.check(bad is None, "C06.R8", "no-open-socket-across-release:%s" % ci.name, fn.loc(),
+              "%s.send_request: with keep-alive off the socket is closed before another task can take the lock (%d releases)" % (ci.name, n),
+              bad="%s.send_request gives up the lock at line %s with keep-alive off and the socket still open: the next lock holder sends on the same socket and a late answer to the timed-out request is accepted as its answer [path %s]" % (
+                  ci.name, bad[1].node.lineno if bad else "?", bad[0].describe(8) if bad else ""))
+
+
 # ----------------------------------------------------------------------- R6
 def r6(ctx, rep, ci):
     """A stale timeout callback acts on whatever request is in flight when it fires (it cancels self.response_future),
@@ -368,6 +426,18 @@ def r7(ctx, rep):
             ret = p.end == "return" and p.end_node.value is not None and norm(p.end_node.value) == "self._lock"
             rep.check(ret and not lock_falsy, "C06.R7", "reuse:%s" % p.describe(), fn.loc(), "the existing lock is returned when the loop is unchanged",
                       bad="_ensure_lock has a path that neither creates nor returns the stored lock [path %s]" % p.describe())
+    # the decision "same lock or new lock" rests on self._lock / self._running_loop: nobody else may rebind them
+    for ci in [base] + list(prog.all_subclasses(base, include_self=False)):
+        for m in ci.methods.values():
+            if m.name == "__init__" or only_reached_from(ctx, m, [fn]):
+                continue
+            for n in ast.walk(m.node):
+                if isinstance(n, ast.stmt):
+                    hit = [a for a, _, _ in self_store(n) if a in ("_lock", "_running_loop")]
+                    if hit:
+                        rep.violation("C06.R7", "lock-state-writer:%s:%s" % (m.short, hit[0]), m.loc(n),
+                                      "%s rebinds self.%s: _ensure_lock then takes the running loop for a new one and hands the next caller a fresh lock while earlier callers still hold or wait on the old one" % (m.short, hit[0]))
+    rep.ok("C06.R7", "lock-state-writers", fn.loc(), "self._lock / self._running_loop are bound only by __init__ and _ensure_lock")
     if nreuse == 0:
         rep.violation("C06.R7", "no-reuse", fn.loc(), "_ensure_lock never re-uses the existing lock: every caller gets its own lock and requests are not serialised")
     if ncreate == 0:
